@@ -222,6 +222,13 @@ func Judge(e *rt.Entry, sc *prog.Scenario, x *rt.Exec) []Viol {
 	if lim := limitOf(effConc(p, sc)); int(x.HWM.Load()) > lim {
 		j.add(uniq("C03"), "%d user functions were executing at once; the limit is %d (Concurrency(%d))", x.HWM.Load(), lim, sc.Conc)
 	}
+	if n := int(x.CensusSched.Load()); n > 0 {
+		// N workers + the loop (+ transiently the goroutine that starts workers)
+		lim := limitOf(effConc(p, sc))
+		if n > lim+2 {
+			j.add(uniq("C03"), "%d goroutines in scheduler code while %d functions were held (limit %d, the directive has %d functions): goroutines grow beyond a function of the limit", n, x.HWM.Load(), lim, len(p.AllFns()))
+		}
+	}
 	if x.BadStates.Load() > 0 {
 		j.add(uniq("C19"), "%d scheduler state reports received through cff.SchedulerEmitter are inconsistent, first: %s", x.BadStates.Load(), x.FirstBadState)
 	}
